@@ -6,6 +6,7 @@ CONSTANTS
   PCaps = {2}
   ACaps = {2}
   MaxBacklog = 2
+  MaxFaults = 1
   MaxParses = 0
   WithSync = FALSE
   FixParentMissing = TRUE
